@@ -482,9 +482,36 @@ func runFullRead(c *Ctx) {
 				}
 				return nil
 			}
-			c.Check(spec.Passed(f, r, "full"), key, call.Pos(), "the frame is written only past "+rdn.Name()+" == "+want,
-				"a chunk frame is written although the read that filled its buffer may have returned fewer than "+want+" bytes (no "+rdn.Name()+" == "+want+" test on every path): when the source file shrank after the scan, a short final chunk is sent, "+
-					"the receiver accepts any length up to the chunk size into its pre-sized file, and both sides report success with a zero-filled tail")
+			full := spec.Passed(f, r, "full")
+			if !full && len(call.Args) >= 7 && receiverRefusesOtherLengths(p) {
+				// the frame carries exactly the bytes that were read (length n, payload buf[:n], CRC over buf[:n]): a short read
+				// makes a short frame, and the receiver refuses a frame whose length is not the one its index takes in the file
+				lenIsN := ObjOf(info, StripConv(info, call.Args[4])) == rdn
+				cutIsN := func(e ast.Expr) bool {
+					for _, d := range resolveExprs(f, e, 2) {
+						hit := false
+						ast.Inspect(d, func(k ast.Node) bool {
+							if sl, ok := k.(*ast.SliceExpr); ok && sl.Low == nil && sl.High != nil && ObjOf(info, StripConv(info, sl.High)) == rdn {
+								if ro := rootObj(info, sl.X); ro != nil && ro == bufObj {
+									hit = true
+								}
+							}
+							return true
+						})
+						if hit {
+							return true
+						}
+					}
+					return false
+				}
+				if lenIsN && cutIsN(call.Args[6]) && cutIsN(call.Args[5]) {
+					c.OK(key, call.Pos(), "the frame carries exactly the bytes read ("+rdn.Name()+", "+bufObj.Name()+"[:"+rdn.Name()+"]) and the receiver refuses a frame of another length than its place takes")
+					return
+				}
+			}
+			c.Check(full, key, call.Pos(), "the frame is written only past "+rdn.Name()+" == "+want,
+				"a chunk frame is written although the read that filled its buffer may have returned fewer than "+want+" bytes (no "+rdn.Name()+" == "+want+" test on every path), and the frame is not built from exactly the bytes read "+
+					"(length "+rdn.Name()+", payload and CRC over "+bufObj.Name()+"[:"+rdn.Name()+"]): when the source file shrank after the scan, stale bytes of the buffer go out at full length with a matching CRC, and both sides report success with a wrong tail")
 		})
 	}
 }
@@ -1105,4 +1132,57 @@ func runBucket(c *Ctx) {
 	if k == 0 {
 		c.Bad("bucket/grant", f.Pos(), "tokenBucket.Allow has no `return true`")
 	}
+}
+
+// receiverRefusesOtherLengths: the multiplexed receiver's data reader returns an error for a frame whose length is not
+// chunkSizeForIndex(size, chunk size, index) - the condition R-TILE/len==tile decides for C19; looked up here so that
+// R-FULL-READ's second form does not rest on another rule's verdict.
+func receiverRefusesOtherLengths(p *Program) bool {
+	recv := p.Func("transfer.RecvManifestMultiStream")
+	if recv == nil {
+		return false
+	}
+	found := false
+	for _, f := range allKids(recv) {
+		info := f.Info()
+		ast.Inspect(f.Body, func(m ast.Node) bool {
+			is, ok := m.(*ast.IfStmt)
+			if !ok {
+				return true
+			}
+			be, ok := ast.Unparen(is.Cond).(*ast.BinaryExpr)
+			if !ok || be.Op != token.NEQ {
+				return true
+			}
+			isTile := func(e ast.Expr) bool {
+				for _, d := range resolveExprs(f, e, 1) {
+					if call, ok := ast.Unparen(d).(*ast.CallExpr); ok {
+						if g := p.CalleeInfo(info, call); g != nil && g.Name == "transfer.chunkSizeForIndex" {
+							return true
+						}
+					}
+				}
+				// `if want := chunkSizeForIndex(..); chunkLen != want`
+				if as, ok := is.Init.(*ast.AssignStmt); ok && len(as.Lhs) == 1 && len(as.Rhs) == 1 && ObjOf(info, as.Lhs[0]) != nil && ObjOf(info, as.Lhs[0]) == ObjOf(info, e) {
+					if call, ok := ast.Unparen(as.Rhs[0]).(*ast.CallExpr); ok {
+						if g := p.CalleeInfo(info, call); g != nil && g.Name == "transfer.chunkSizeForIndex" {
+							return true
+						}
+					}
+				}
+				return false
+			}
+			if !isTile(be.X) && !isTile(be.Y) {
+				return true
+			}
+			ast.Inspect(is.Body, func(k ast.Node) bool {
+				if _, ok := k.(*ast.ReturnStmt); ok {
+					found = true
+				}
+				return true
+			})
+			return true
+		})
+	}
+	return found
 }
